@@ -18,6 +18,9 @@ func init() {
 			ruleC12D1(r)
 			ruleC12D2(r)
 			ruleC12D3(r)
+			ruleErrorsChecked(r, "D4", "/encoding/convert", 50)
+			le := newLockEngine(r.P)
+			ruleLockPairingFor(r, le, "D5", "the wire read path never wedges on a lock: every function of package wire that takes a lock releases it on every path (an unsolicited frame must not leave a mutex held)", func(fn *ssa.Function) bool { return fnPkgPath(fn) == modPath+"/wire" && le.Info(fn).Events > 0 }, 10)
 		},
 	})
 }
